@@ -21,12 +21,18 @@
    discharges.  Histories with a failing write are therefore EXCLUDED from the model
    (not covered by any statement here); in the Go code such a failure surfaces as the
    error of Commit/Update and leaves the old disk layer stale.
+   cap_preserves_sem (C16_cap_preserves_sem): in every state reached by a history,
+   every successful operation (Update, cap, Commit, flush) leaves the VALUE of sem
+   (accounts, slots and trie nodes) unchanged at every root that is live before and
+   after; a newly added root means its diff over its parent (C16_add_new_sem).  The
+   proof goes through the content of the write buffers: a disk layer reads the live
+   buffer, then the frozen buffer, then the store, and this order returns the newest
+   write across merges, freezes (sync and async flush) and background flushes
+   (LayersSem.commit_content / persist_content / flush_sem) -- reading the frozen
+   buffer first breaks commit_content.
    STILL MISSING:
-   (b) cap_preserves_sem (the VALUE of sem at a surviving root is unchanged by a
-       flatten / flush, i.e. the buffer merge and flush write the right content) is
-       not proved -- supported only by the correspondence runs (Go reference oracle);
    (c) concurrency (read_during_cap) is not modelled. *)
-From GV Require Import Lib.Tactics PathDB.Lookup PathDB.Layers PathDB.LayersProofs PathDB.LayersInv PathDB.LayersOk.
+From GV Require Import Lib.Tactics PathDB.Lookup PathDB.Layers PathDB.LayersProofs PathDB.LayersInv PathDB.LayersOk PathDB.LayersSem.
 Local Open Scope N_scope.
 
 (* the lookup tip is the nearest modifier: if the entries of a key's history list
@@ -100,6 +106,36 @@ Theorem C16_read_correct : forall c h,
       (forall k, exists v, sem_node s root k = Ok v /\ read_node s root k = Ok v).
 Proof. exact read_correct_run. Qed.
 Print Assumptions C16_read_correct.
+
+(* every successful operation on a reachable state keeps the meaning of every root
+   that survives it: flattening into the disk layer (buffer merge, freeze, sync or
+   async flush), dropping layers, re-parenting and background flushes do not change
+   sem -- for accounts, slots and trie nodes *)
+Theorem C16_cap_preserves_sem : forall c h s o s',
+  c_relink c = true -> run (init_db c) h = Some s -> step s o = (s', Ok tt) ->
+  forall r, In r (live_roots s) -> In r (live_roots s') ->
+    (forall k, sem_state s' r k = sem_state s r k) /\ (forall k, sem_node s' r k = sem_node s r k).
+Proof. exact cap_preserves_sem. Qed.
+Print Assumptions C16_cap_preserves_sem.
+
+(* the meaning of a newly added root is its diff over the meaning of its parent *)
+Theorem C16_add_new_sem : forall s root parent nodes states s' p,
+  Inv4 s -> NoDup (map fst (kv_data states)) -> NoDup (map fst (kv_data nodes)) ->
+  tget s root = None -> tget s parent = Some p ->
+  tree_add s root parent nodes states = (s', Ok tt) ->
+  (forall k, exists v, sem_state s parent k = Ok v /\
+     sem_state s' root k = Ok (match aget skey_eqb (kv_data states) k with Some w => w | None => v end)) /\
+  (forall k, exists v, sem_node s parent k = Ok v /\
+     sem_node s' root k = Ok (match aget nkey_eqb (kv_data nodes) k with Some w => w | None => v end)).
+Proof. exact add_new_sem. Qed.
+Print Assumptions C16_add_new_sem.
+
+(* the strengthened invariant (layer tree + buffers + ids + buffer contents) holds
+   along every history *)
+Theorem C16_inv4_history : forall c h s,
+  c_relink c = true -> run (init_db c) h = Some s -> Inv4 s.
+Proof. intros c h s Hc Hr. exact (run_inv4 h _ _ (init_inv4 c Hc) Hr). Qed.
+Print Assumptions C16_inv4_history.
 
 (* a read at a root that is not (or no longer) in the tree is an error in every
    state whatsoever -- never another state's data *)
